@@ -26,6 +26,10 @@ def pivot():
     S.append(EnumSpec("UpperNonAscii", [U("Uber", serialize=["\u00dcber"], aci=True), U("Ecole", serialize=["\u00c9a"], aci=True),
                                         U("Kel", serialize=["\u212a1"], aci=True), U("Low", serialize=["\u00fcb"], aci=True)],
                       derives=d, note="case-insensitive spellings containing non-ASCII UPPER-case letters (U+00DC, U+00C9, Kelvin sign): they fold to nothing"))
+    S.append(EnumSpec("CiToString", [U("Halt", to_string="halt", aci=True), U("Lo", to_string="Lo", serialize=["low"], aci=True, aci_bare=True), U("Go", to_string="GO")],
+                      derives=d, note="case-insensitive variants whose spelling is a to_string literal (alone and next to a serialize)"))
+    S.append(EnumSpec("CiToStringEnum", [U("Halt", to_string="halt"), U("Run", to_string="Run", aci=False), U("Up")], derives=d, aci=True,
+                      note="enum-level flag over to_string spellings"))
     S.append(EnumSpec("Digits", [U("N1", serialize=["123"], aci=True), U("N2", serialize=["4-5"]), U("Mix", serialize=["a1B2"], aci=True)],
                       derives=d, note="digits only / punctuation / mixed"))
     S.append(EnumSpec("Sa", [U("DarkBlack"), U("KissMe", aci=False), U("SkI")], derives=d, aci=True, serialize_all="snake_case",
@@ -101,7 +105,18 @@ def program(spec, pname, tier, cap):
         hs.append(Harness(name="h_ci_witness_%d" % (ci // 3), body="\n".join(wb), unwind=18, kind="witness",
                           desc="fixed look-alike / case-flip inputs derived from the spellings: %s" % ", ".join(repr(w) for w in chunk),
                           bound={"inputs": chunk}, functions=fns))
+    hs.append(Harness(name="h_e2_replay", native_only=True, desc="replay vehicle for E2 models: any valid UTF-8 input up to 64 bytes",
+                      body="    let ss = SymStr::<64>::utf8();\n    let r = <%s as core::str::FromStr>::from_str(ss.as_str());\n    check_parse(&r, oracle(ss.bytes()), ss.bytes());" % spec.ty()))
     return Program(name=pname, enum_src=src, helper_src=helper, harnesses=hs, summary=render_enum(spec), role=spec.role, note=spec.note)
+
+
+specs_cache = {}
+
+
+def e2(run, programs, tier, seed, known):
+    import e2str
+    specs = [s for s in specs_cache.get((tier, seed), []) if not s.generics]
+    return e2str.run_e2(run, programs, specs, "", [], lambda sp: None, known)
 
 
 def build(tier, seed):
@@ -111,6 +126,7 @@ def build(tier, seed):
     rnd = [s for s in c01.random_specs(rng, 4 if tier == "quick" else 20) if any(is_ci(s, v) for v in enabled(s))][: (2 if tier == "quick" else 10)]
     specs = pivot() + rnd
     programs = [program(s, "p%03d" % i, tier, cap) for i, s in enumerate(specs)]
+    specs_cache[(tier, seed)] = specs
     programs.append(Program(name="plemma", enum_src="", harnesses=[
         Harness(name="lemma_valid_utf8", body=LEMMA, unwind=8, kind="lemma",
                 desc="valid_utf8(b) == core::str::from_utf8(b).is_ok() for every b of <= 5 bytes (justifies the SymStr assumption)",
